@@ -99,6 +99,23 @@ def run(F, rep):
     ge = ge[0]
     rec = [c for c in ge.walk() if c.get('k') == 'Call' and ge.key in F.callee_keys(c)]
     deploop = [l for l in ge.walk() if l.get('k') == 'RangeFor' and render(role(l, 'range')).endswith('equation->dependencies()')]
+    index_form = None
+    if not deploop and rec:
+        # index form: for (i = 0; i < equation->dependencyCount(); ++i) { dependency = equation->dependency(i); ... }
+        for l in ge.ancestors(rec[0]):
+            if l.get('k') == 'For' and role(l, 'cond') is not None:
+                cnd = role(l, 'cond')
+                full = cnd.get('k') == 'Bin' and cnd.get('op') in ('<', '!=') and render(cnd['c'][1]).endswith('equation->dependencyCount()')
+                iv = cnd['c'][0] if full else None
+                zero = iv is not None and any(v.get('k') == 'Var' and v.get('d') == iv.get('d') and v.get('c') and render(v['c'][0]) in ('0', '0U', '0UL') for v in walk(role(l, 'init') or {}))
+                step = iv is not None and role(l, 'inc') is not None and role(l, 'inc').get('k') == 'Un' and role(l, 'inc').get('op') == '++'
+                if iv is None and cnd.get('k') == 'Bin' and cnd['c'][0].get('k') in ('Ref', 'Cast'):
+                    iv = next((x for x in walk(cnd['c'][0]) if x.get('k') == 'Ref' and x.get('dk') == 'local'), None)
+                fetch = iv is not None and any(c.get('k') == 'Call' and c.get('fn') == 'dependency' and render(nth_arg(c, 0)) == render(iv) for c in walk(role(l, 'body')))
+                if fetch:
+                    deploop = [l]
+                    index_form = (full, zero, step, render(role(l, 'init') or {})[:30], render(cnd)[:50])
+                break
     sw = [s for s in ge.walk() if s.get('k') == 'Switch' and 'equation->type()' in render(role(s, 'cond'))]
     if not rec or not deploop or not sw:
         raise AnalysisBroken('generateEquationCode: dependency loop / type switch not found')
@@ -108,7 +125,10 @@ def run(F, rep):
     rep.check(all(any(a is deploop[0] for a in ge.ancestors(c)) for c in rec) and not after and all(_can_reach(gcfg, c, role(sw[0], 'cond')) for c in rec), 'C20.G1', 'dependencies-first', ge.where(deploop[0]),
               'the equation\'s own code is not emitted after the loop over its dependencies', 'dependency loop precedes the emission of the equation')
     early = [x for x in walk(role(deploop[0], 'body')) if x.get('k') in ('Break', 'Return')]
-    rep.check(not early, 'C20.G1', 'all-dependencies', ge.where(deploop[0]), 'the dependency loop can stop early', 'every dependency visited')
+    bounds_ok = index_form is None or all(index_form[:3])
+    rep.check(not early and bounds_ok, 'C20.G1', 'all-dependencies', ge.where(deploop[0]),
+              'the dependency loop can stop early' if early else 'the index loop over the dependencies does not run from 0 to dependencyCount() in steps of one (`%s; %s`): some dependency is never generated' % (index_form[3:] if index_form else ('', '')),
+              'every dependency visited')
     er = [c for c in ge.walk() if c.get('k') == 'Call' and c.get('fn') == 'erase' and 'remainingEquations' in render(receiver(c))]
     rep.check(bool(er) and all(gcfg.node_dominates(er[0], c) for c in rec), 'C20.G1', 'removed-before-recursing', ge.where(), 'the equation is still on the work list while its dependencies are generated (mutually dependent equations recurse forever)', 'erased from remainingEquations first')
     ext_calls = [c for c in ge.walk() if c.get('k') == 'Call' and c.get('fn') == 'externalVariableMethodCallString']
@@ -217,6 +237,11 @@ def run(F, rep):
     rep.rule('C20.G3', 'inside the loop over the dependencies of an equation, whether a dependency is generated first is decided from the dependency and from what the caller asked for, not from properties of the equation that depends on it '
                        '(an equation that is not recomputed itself - a constant-like one - may still depend on an external variable whose callback must come first)')
     from engines import single_def as _sd20, enclosing_conditions as _ec20
+
+    def _strip20(e):
+        while e is not None and e.get('k') in ('Paren', 'Cast', 'Construct', 'Temp', 'Bind') and len(e.get('c', [])) == 1:
+            e = e['c'][0]
+        return e
     for c in rec:
         atoms = []
         for cnd, br, st in _ec20(ge, c):
@@ -224,6 +249,8 @@ def run(F, rep):
                 atoms.append(cnd)
         bad_ = []
         eq_d = ge.params[0]['d']
+        # index form of the loop: the local that holds the i-th dependency IS the loop element, not a property of the dependent equation
+        elem_ = {v['d'] for v in walk(role(deploop[0], 'body')) if v.get('k') == 'Var' and v.get('c') and any(x.get('k') == 'Call' and x.get('fn') == 'dependency' and x is _strip20(v['c'][0]) for x in walk(v['c'][0]))}
         for cnd in atoms:
             todo = [cnd]
             seen_ = set()
@@ -232,7 +259,7 @@ def run(F, rep):
                 for x in walk(e_):
                     if x.get('k') == 'Ref' and x.get('d') == eq_d:
                         bad_.append(render(cnd)[:80])
-                    if x.get('k') == 'Ref' and x.get('dk') == 'local' and x['d'] not in seen_ and _sd20(ge, x['d']) is not None:
+                    if x.get('k') == 'Ref' and x.get('dk') == 'local' and x['d'] not in seen_ and x['d'] not in elem_ and _sd20(ge, x['d']) is not None:
                         seen_.add(x['d'])
                         todo.append(_sd20(ge, x['d']))
         rep.check(not bad_, 'C20.G3', 'dependency-decision|%s' % render(c)[:40], ge.where(c), 'the generation of a dependency depends on the dependent equation itself: `%s`' % (bad_[0] if bad_ else ''), 'decided from the dependency')
